@@ -35,7 +35,12 @@ let node_str (n : Builder.node) : string =
     | Builder.NData (ty, ts, cnt, rep, d) -> "D " ^ zs ty ^ " " ^ zs ts ^ " " ^ zs cnt ^ " " ^ zs rep ^ " " ^ hex_of d
     | Builder.NEmbedLabel (l, sz) -> "EL " ^ zs l ^ " " ^ zs sz
     | Builder.NEmbedDelta (l, b, sz) -> "ED " ^ zs l ^ " " ^ zs b ^ " " ^ zs sz
-    | Builder.NComment -> "C" in
+    | Builder.NComment -> "C"
+    | Builder.NConstPool (l, al, d) -> "CPN " ^ zs l ^ " " ^ zs al ^ " " ^ hex_of d
+    | Builder.NSentinel ty -> "SN " ^ zs ty
+    | Builder.NFunc (l, ex) -> "FUNC " ^ zs l ^ " " ^ zs ex
+    | Builder.NFuncEnd _ -> "SN " ^ zs Builder.kSentinelFuncEnd
+    | Builder.NFuncRet -> "FRET" in
   k ^ " " ^ comment_str n.Builder.n_comment
 
 let dump (b : Builder.bstate) : string =
@@ -44,7 +49,7 @@ let dump (b : Builder.bstate) : string =
   let links = String.concat "," (List.init ns (fun i ->
     match Builder.lookup (cz_of_int i) b.Builder.links with Some (Some t) -> zs t | _ -> "-1")) in
   let buf = Buffer.create 256 in
-  Buffer.add_string buf ("cur=" ^ string_of_int cur ^ " dirty=" ^ (if b.Builder.dirty then "1" else "0") ^ " links=" ^ links ^ " last=ok |");
+  Buffer.add_string buf ("cur=" ^ string_of_int cur ^ " dirty=" ^ (if b.Builder.dirty then "1" else "0") ^ " links=" ^ links ^ " last=ok pend=" ^ zs b.Builder.p_opts ^ "," ^ zs b.Builder.p_exsig ^ "," ^ zs b.Builder.p_exid ^ "," ^ comment_str b.Builder.p_comment ^ " |");
   List.iter (fun n -> Buffer.add_string buf (" " ^ node_str n ^ " ;")) b.Builder.active;
   Buffer.add_string buf " ||";
   List.iter (fun n -> Buffer.add_string buf (" " ^ node_str n ^ " ;")) b.Builder.pool;
@@ -54,7 +59,7 @@ let num (s : string) : Builder.z = cz_of_string s
 let mkop a at = { Builder.o_sig = num a.(at); o_id = num a.(at + 1); o_d0 = num a.(at + 2); o_d1 = num a.(at + 3) }
 let op_none = { Builder.o_sig = cz_of_int 0; o_id = cz_of_int 0; o_d0 = cz_of_int 0; o_d1 = cz_of_int 0 }
 
-let cmd_of (t : string array) : Builder.cmd option =
+let cmd_of (st : Builder.bstate) (t : string array) : Builder.cmd option =
   let a i = t.(i + 1) in
   let n i = num (a i) in
   let ni i = nat_of_int (int_of_string (a i)) in
@@ -69,6 +74,7 @@ let cmd_of (t : string array) : Builder.cmd option =
     let cnt = int_of_string (a 1) in
     let op i = if i < cnt then mkop t (3 + 4 * i) else op_none in
     Some (Builder.CEmit (n 0, op 0, op 1, op 2, op 3, op 4, op 5))
+  | "IR" -> Some (Builder.CEmitRejected (n 0))
   | "B" -> Some (Builder.CBind (n 0))
   | "A" -> Some (Builder.CAlign (n 0, n 1))
   | "E" -> Some (Builder.CEmbed (unhex (a 0)))
@@ -77,6 +83,11 @@ let cmd_of (t : string array) : Builder.cmd option =
   | "ED" -> Some (Builder.CEmbedDelta (n 0, n 1, n 2))
   | "CP" -> Some (Builder.CConstPool (n 0, n 1, unhex (a 3)))
   | "CM" -> Some (Builder.CComment (unhex (a 0)))
+  | "CPN" -> Some (Builder.CConstPoolNode (st.Builder.nlabels, n 0, unhex (a 2)))     (* the node registers the next label id *)
+  | "SN" -> Some (Builder.CSentinel (n 0))
+  | "FN" -> Some Builder.CFunc
+  | "FR" -> Some Builder.CFuncRet
+  | "FE" -> Some Builder.CEndFunc
   | "S" -> Some (Builder.CSection (n 0))
   | "SCUR" -> let i = int_of_string (a 0) in Some (Builder.CSetCursor (if i < 0 then None else Some (nat_of_int i)))
   | "RM" -> Some (Builder.CRemove (ni 0))
@@ -89,7 +100,8 @@ let cmd_of (t : string array) : Builder.cmd option =
   | _ -> None
 
 let consts () =
-  Printf.printf "ERR InvalidArgument %s\nERR InvalidLabel %s\nERR InvalidSection %s\nERR LabelAlreadyBound %s\n" (zs Builder.kInvalidArgument) (zs Builder.kInvalidLabel) (zs Builder.kInvalidSection) (zs Builder.kLabelAlreadyBound);
+  Printf.printf "ERR InvalidArgument %s\nERR InvalidLabel %s\nERR InvalidSection %s\nERR LabelAlreadyBound %s\nERR InvalidOperandSize %s\n" (zs Builder.kInvalidArgument) (zs Builder.kInvalidLabel) (zs Builder.kInvalidSection) (zs Builder.kLabelAlreadyBound) (zs Builder.kInvalidOperandSize);
+  Printf.printf "ERR InvalidState %s\n" (zs Builder.kInvalidState);
   Printf.printf "OPT Reserved %s\nALIGN data %s\n" (zs Builder.kOptReserved) (zs Builder.kAlignData);
   Printf.printf "MAXOPS %d %d %d\n" (int_of_nat Builder.kFullOpCapacity) (int_of_nat Builder.kBaseOpCapacity) (int_of_nat Builder.kFullOpCapacity);
   List.iter (fun rs ->
@@ -103,6 +115,8 @@ let () =
   let verbose = Array.exists (fun s -> s = "-v") Sys.argv in
   if Array.exists (fun s -> s = "-consts") Sys.argv then (consts (); exit 0);
   let st = ref (Builder.init_state (cz_of_int 8)) and pidx = ref (-1) and step = ref 0 and active = ref false and in_ref = ref false in
+  let errs : (int, bool) Hashtbl.t = Hashtbl.create 64 in      (* command index -> rejected by the model *)
+  let refcmds = ref [] in
   try
     while true do
       let line = input_line stdin in
@@ -112,16 +126,37 @@ let () =
         | "P" ->
           pidx := int_of_string toks.(1);
           st := Builder.init_state (cz_of_int (if toks.(2) = "0" then 4 else 8));
-          step := 0; active := true; in_ref := false
+          step := 0; active := true; in_ref := false; Hashtbl.reset errs; refcmds := []
         | "X" -> in_ref := true
         | "END" ->
-          if !active then Printf.printf "p%d DUMP %s\n" !pidx (dump !st);
+          if !active then begin
+            Printf.printf "p%d DUMP %s\n" !pidx (dump !st);
+            (* the oracle's reference sequence (X part) against the proven model: both are normalised by the model's own [trace] *)
+            if !in_ref && !refcmds <> [] then begin
+              let t1 = Builder.trace (Builder.replay !st) and t2 = Builder.trace (List.rev !refcmds) in
+              if t1 = t2 then Printf.printf "p%d REFTRACE ok %d\n" !pidx (List.length t1)
+              else begin
+                let rec first i a b = match a, b with
+                  | x :: a', y :: b' -> if x = y then first (i + 1) a' b' else i
+                  | _ -> i in
+                Printf.printf "p%d REFTRACE DIFF %d %d %d\n" !pidx (first 0 t1 t2) (List.length t1) (List.length t2)
+              end
+            end
+          end;
           active := false
+        | _ when !active && !in_ref ->
+          (* "@<origin> cmd ..." : skipped when the origin command was rejected at record time (the harness does the same) *)
+          let origin = int_of_string (String.sub toks.(0) 1 (String.length toks.(0) - 1)) in
+          if not (Hashtbl.mem errs origin) then
+            (match cmd_of !st (Array.sub toks 1 (Array.length toks - 1)) with
+             | Some c -> refcmds := c :: !refcmds
+             | None -> ())
         | _ when !active && not !in_ref ->
-          (match cmd_of toks with
+          (match cmd_of !st toks with
            | Some c ->
              let (b, e) = Builder.step !st c in
              st := b;
+             if z_of_cz e <> Z.zero then Hashtbl.replace errs !step true;
              let d = dump b in
              if verbose then Printf.printf "p%d STEPV %d %s %s\n" !pidx !step (zs e) d;
              Printf.printf "p%d STEP %d %s %d\n" !pidx !step (zs e) (hash_str d)
